@@ -21,7 +21,10 @@ RULE = ('The same generated scenario is executed three ways - core API (StreamFr
         'the request limit and credit is only renewed after limit elements arrived; the handler\'s observable reaches '
         'the wire within the credit received; a back-pressure factory\'s feedback subject received exactly the credited '
         'amounts in order; dispose sends one CANCEL and cancels the peer\'s source; the delegate\'s '
-        'request_fire_and_forget / on_metadata_push / on_setup were invoked with the sent values. Non-trivial = >= 3 '
+        'request_fire_and_forget / on_metadata_push / on_setup were invoked with the sent values. Plus long sources: a '
+        'back-pressure-aware handler observable of 1500 elements with credit 700..2^31-1 whose result is disposed after 1-6 '
+        'elements or 2-8 ticks under prompt delivery must not be drained to its end (the CANCEL has to get a chance to '
+        'stop it). Non-trivial = >= 3 '
         'elements with request limit < element count, or an error / dispose position strictly inside the sequence; '
         'distinct = scenario hash.')
 ASSUMPTIONS = ['Rx 3 (rx) and ReactiveX 4 (reactivex) are importable in /venv', 'a plain observable may be buffered by the adapter']
@@ -527,6 +530,46 @@ def judge_variant(sc, variant):
     return out
 
 
+# ---- a source far longer than anything that can be in flight: an early dispose must stop it, not drain it
+
+LONG_N = 1500
+LONG_VARIANTS = ('rx3', 'rx4', 'core/rx3', 'core/rx4')
+
+
+@st.composite
+def long_scenarios(draw):
+    sc = {'model': draw(st.sampled_from(['st', 'st', 'ch'])), 'n': LONG_N, 'limit': draw(st.sampled_from([MAXN, MAXN, 1000, 700])),
+          'err_at': None, 'dispose_after': None, 'dispose_ticks': None, 'bp': True, 'msg': draw(st.booleans()),
+          'rbuf': draw(st.sampled_from([7, 1024])), 'frag': None, 'lens': draw(st.sampled_from([[5, 0], [0, 4]])),
+          'flag_end': False, 'long': True}
+    if draw(st.booleans()):
+        sc['dispose_after'] = draw(st.integers(1, 6))
+    else:
+        sc['dispose_ticks'] = draw(st.sampled_from([2, 3, 5, 8]))
+    if sc['model'] == 'ch':
+        sc.update(m=draw(st.integers(0, 3)), rbp=False, rerr_at=None, resp_limit=MAXN)
+    return sc
+
+
+def long_prop(sc):
+    out = []
+    for variant in LONG_VARIANTS:
+        tr = run_variant(sc, variant)
+        yields = sum(1 for e in tr.world.log if e['ev'] == 'yield' and e.get('src') == 'resp')
+        disposed = any((e['ev'] == 'obs' and e.get('what') == 'dispose') or e['ev'] == 'sub_cancel' for e in tr.world.log)
+        cancel_sent = any(e['f']['type'] == 'CANCEL' for e in tr.world.wire.get('c', []))
+        if disposed and cancel_sent and yields >= sc['n']:
+            out.append(viol('source_drained_after_early_dispose', 'C20:%s:dispose_source_drained' % variant, variant=variant,
+                            model=sc['model'], yields=yields, n=sc['n'], limit=sc['limit'],
+                            dispose_after=sc['dispose_after'], dispose_ticks=sc['dispose_ticks']))
+        for err in tr.loop_errors:
+            out.append(viol('unhandled_exception', 'C20:%s:loop_error:%s' % (variant, err.get('type')), variant=variant))
+        info['long_yields'] = yields
+    info['nt'] = True
+    info['classes'] = ['long_source=True', 'model=' + sc['model']]
+    return out
+
+
 VARIANTS = ('core', 'rx3', 'rx4', 'core/rx3', 'core/rx4', 'rx3/core', 'rx4/core')
 
 info = {}
@@ -576,12 +619,22 @@ def shard(tier, seed, n):
     return stats
 
 
+def long_shard(tier, seed, n):
+    common.use_repo()
+    stats = common.Stats()
+    known = common.Known(PID)
+    common.hyp_search(stats, known, long_scenarios(), long_prop, n, seed, classify=classify)
+    return stats
+
+
 def run(tier, seed):
     t0 = time.time()
     total = 4800 if tier == 'quick' else 40000
-    jobs = [dict(tier=tier, seed=0, n=None)] + [dict(tier=tier, seed=s, n=total // common.NPROC)
-                                                  for s in common.shard_seeds(seed, common.NPROC)]
-    stats = common.run_shards(__name__, 'shard', jobs)
+    jobs = [('shard', dict(tier=tier, seed=0, n=None))] + [('shard', dict(tier=tier, seed=s, n=total // common.NPROC))
+                                                            for s in common.shard_seeds(seed, common.NPROC)]
+    nlong = 32 if tier == 'quick' else 640
+    jobs += [('long_shard', dict(tier=tier, seed=s + 4242, n=nlong // 8)) for s in common.shard_seeds(seed, 8)]
+    stats = common.run_shards_multi(__name__, jobs)
     stats.extra['executions_per_scenario'] = len(VARIANTS)
     stats.extra['variants'] = list(VARIANTS)
     return common.finish(PID, tier, seed, LEVEL, RULE, stats, t0, ASSUMPTIONS)
@@ -589,4 +642,7 @@ def run(tier, seed):
 
 def replay(path):
     common.use_repo()
-    return common.report_replay(PID, path, prop(common.load_replay(path)))
+    case = common.load_replay(path)
+    if case.get('long'):
+        return common.report_replay(PID, path, long_prop(case))
+    return common.report_replay(PID, path, prop(case))
